@@ -5,6 +5,16 @@ Writes coq/gen/C09Consts.v:
                         (`self._pacing_at = None` as the first statement of the `else:` of `if self._close_pending:`,
                         docs/C09-fix-1.patch)?  false when datagrams_to_send never assigns self._pacing_at; any other
                         assignment there fails closed.
+  CLOSE_BEGIN_UNCONDITIONAL (bool)
+                        are `self._close_pending = False` and `self._close_begin(is_initiator=True, now=now)` the LAST TWO
+                        statements, in this order, of the body of the top-level `if self._close_pending:` of
+                        `datagrams_to_send` (direct children: not under any further if / for / try), i.e. executed by every
+                        close round whether or not a packet was written, with `builder.flush()` only afterwards?
+                        true: yes (model/Timers.v `send`, theorem close_round_always_begins).  false: the function still
+                        contains exactly one such assignment and one such call but somewhere else (e.g. in the post-flush
+                        `if datagrams:` block): the proofs about the close round (proofs/TimersP.v) then fail.  Anything
+                        else (missing, duplicated, other arguments, a second top-level test of _close_pending, an early
+                        return / raise / break / continue inside the close branch, a flush before the branch) fails closed.
 Also checks what model/TimersFull.v relies on: apart from that reset, `self._pacing_at` is assigned only in __init__
 (None) and once in _write_application (`self._loss._pacer.next_send_time(now=now)`), under the pacing test
 `space.ack_at is None or space.ack_at > now` (or `>= now`, C12's PACING_LE; not a C09 matter).
@@ -83,7 +93,63 @@ def read_consts():
         if not ok:
             raise GenError("datagrams_to_send assigns self._pacing_at in an unknown way: %s" % [ast.unparse(x) for x in dts])
         c["PACING_RESET"] = True
+    c["CLOSE_BEGIN_UNCONDITIONAL"] = _close_round(tree)
     return c
+
+
+def _is_self_attr(node, attr):
+    return isinstance(node, ast.Attribute) and node.attr == attr and isinstance(node.value, ast.Name) and node.value.id == "self"
+
+
+def _close_round(tree):
+    """Position of the transition out of close-pending inside datagrams_to_send (see the module docstring)."""
+    f = _func(tree, "QuicConnection", "datagrams_to_send")
+    clears, sets_other, begins = [], [], []
+    for n in ast.walk(f):
+        if isinstance(n, (ast.Assign, ast.AnnAssign, ast.AugAssign)):
+            targets = n.targets if isinstance(n, ast.Assign) else [n.target]
+            for t in targets:
+                for leaf in ast.walk(t):
+                    if _is_self_attr(leaf, "_close_pending"):
+                        if isinstance(n, ast.Assign) and len(n.targets) == 1 and _is_self_attr(n.targets[0], "_close_pending") \
+                                and ast.unparse(n.value) == "False":
+                            clears.append(n)
+                        else:
+                            sets_other.append(n)
+        if isinstance(n, ast.Call) and _is_self_attr(n.func, "_close_begin"):
+            begins.append(n)
+        if isinstance(n, ast.Call) and isinstance(n.func, ast.Name) and n.func.id in ("setattr", "delattr"):
+            raise GenError("datagrams_to_send uses %s()" % n.func.id)
+    if sets_other:
+        raise GenError("datagrams_to_send assigns self._close_pending in an unknown way: %s" % [ast.unparse(x) for x in sets_other])
+    if len(clears) != 1 or len(begins) != 1:
+        raise GenError("datagrams_to_send: expected exactly one `self._close_pending = False` and one `self._close_begin(...)`, "
+                       "found %d and %d" % (len(clears), len(begins)))
+    if ast.unparse(begins[0]) != "self._close_begin(is_initiator=True, now=now)":
+        raise GenError("datagrams_to_send: unexpected call %s" % ast.unparse(begins[0]))
+    tests = [n for n in f.body if isinstance(n, ast.If) and ast.unparse(n.test) == "self._close_pending"]
+    if len(tests) != 1:
+        raise GenError("datagrams_to_send: expected exactly one top-level `if self._close_pending:`, found %d" % len(tests))
+    branch = tests[0]
+    # nothing in the close branch may leave it early, and the builder must not be flushed before the branch ends
+    for n in branch.body:
+        for m in ast.walk(n):
+            if isinstance(m, (ast.Return, ast.Raise, ast.Break, ast.Continue)):
+                raise GenError("datagrams_to_send: the close branch contains `%s`" % ast.unparse(m))
+    idx = f.body.index(branch)
+    flushes = [i for i, st in enumerate(f.body) if any(
+        isinstance(m, ast.Call) and isinstance(m.func, ast.Attribute) and m.func.attr == "flush" for m in ast.walk(st))]
+    if len(flushes) != 1 or flushes[0] <= idx:
+        raise GenError("datagrams_to_send: builder.flush() is not a single top-level statement after the close branch")
+    for st in f.body[:idx]:
+        # before the branch: only the END_STATES / no-path guard may return
+        for m in ast.walk(st):
+            if isinstance(m, ast.Return) and not (isinstance(st, ast.If) and ast.unparse(st.test) ==
+                                                  "self._state in END_STATES or not self._network_paths"):
+                raise GenError("datagrams_to_send: unexpected early return before the close branch: %s" % ast.unparse(st.test if isinstance(st, ast.If) else st))
+    body = branch.body
+    pinned = (len(body) >= 2 and body[-2] is clears[0] and isinstance(body[-1], ast.Expr) and body[-1].value is begins[0])
+    return bool(pinned)
 
 
 def generate():
